@@ -47,10 +47,12 @@ FAULTS = [
     ("bad-directive-unknown", ["@foo"], True), ("bad-directive-operand", ["@union 1"], True), ("bad-directive-dup", ["@deprecated", "@deprecated"], True),
     ("duplicate-attribute", ["uint8 dup", "uint8 dup"], False),
     # the name of an existing definition spelled with another letter case: the mistake is in the referring statement
+    # a type that cannot be a field type at all; a later statement that needs the layout must not take the blame
+    ("service-typed-field", ["{root}.Svc.1.0 svcfield"], True),
     ("case-only-reference", ["{root}.{othercase}.1.0 wrongcase"], True), ("case-only-reference-in-expression", ["@print {root}.{othercase}.1.0._extent_"], True),
 ]
 
-FILLERS = ["", "", "   ", "# comment", "#", "# @assert false", "uint8 f{n}", "bool g{n}", "void3", "int16 C{n} = -5", "@assert true",
+FILLERS = ["", "", "   ", "# comment", "@assert _offset_.count >= 1", "@assert _offset_.min >= 0  # needs the layout of everything before it", "#", "# @assert false", "uint8 f{n}", "bool g{n}", "void3", "int16 C{n} = -5", "@assert true",
            "@assert 'multi\nline' != ''", "@assert \"a\n\nb\" != 'x'", "uint8[<=3] h{n}  # trailing", "float32 k{n}",
            # escaped line feeds occupy no line of the file
            # characters that str.splitlines() treats as line boundaries but DSDL does not (only LF / CRLF end a line)
@@ -158,6 +160,7 @@ def gen_case(rng):
         else:
             text, _, _ = build_text(rng, [], refs, crlf and rng.random() < 0.5)
         files["%s/%s.1.0.dsdl" % (root, nm)] = text
+    files["%s/Svc.1.0.dsdl" % root] = "uint8 a\n@sealed\n---\nuint8 b\n@sealed\n"
     return {"files": files, "root": root, "names": names, "depth": depth, "special": special, "api": api,
             "first_as_target": first_as_target, "crlf": crlf}
 
